@@ -97,6 +97,18 @@ for _c, _f in FORMULAS2.items():
     except Exception as _e:
         TRANSLATE_ERRORS.append((_f, f'{type(_e).__name__}: {_e}'))
 
+# one workbook holding the identical position-dependent formula text in several columns / rows (a filled-right header row), two sheets
+ROWFILL = {'B7': '=COLUMN()', 'D7': '=COLUMN()', 'AB7': '=COLUMN()', 'C8': '=ADDRESS(A1,COLUMN(),4)', 'E8': '=ADDRESS(A1,COLUMN(),4)', 'D9': '=COLUMN()+A1', 'G9': '=COLUMN()+A1'}
+try:
+    KFILL = build.load_class(build.translate([('S', dict(CONSTS, **ROWFILL)), ('T', {'A1': 5, 'C3': '=COLUMN()', 'F3': '=COLUMN()'})]), '_kfill')
+except Exception as _e:
+    KFILL = None
+    TRANSLATE_ERRORS.append(('filled-right COLUMN() workbook', f'{type(_e).__name__}: {_e}'))
+
+def evfill(sheet, cell, **ov):
+    args = [{'uid': build.uid(0, a), 'value': v} for a, v in ov.items()]
+    return KFILL(args).exec_function_in(build.uid(sheet, cell))
+
 def ev(cell, **ov):
     """evaluate formula cell `cell` with overrides given as A1=value"""
     args = [{'uid': build.uid(0, a), 'value': v} for a, v in ov.items()]
@@ -204,7 +216,10 @@ def suite_formulas(tier):
     def add(name, sig, pre, body, **kw):
         import re
         cells = sorted(set(re.findall(r"ev\('([FG]\d+)'", body)))
-        _add(name, sig, pre, body, requires=' and '.join(f"'{c}' in K" for c in cells) or None, **kw)
+        req = ' and '.join(f"'{c}' in K" for c in cells) or None
+        if 'requires' in kw:
+            req = kw.pop('requires') + (' and ' + req if req else '')
+        _add(name, sig, pre, body, requires=req, **kw)
     s.add = add
     s.add('f_match_exact', keys, "True", f'''
         ks = {ksl}
@@ -323,6 +338,10 @@ def suite_formulas(tier):
         idx = [i for i, k in enumerate(ks) if k is not None and k == v]
         return got == ([None, b2, None, b4, b5][idx[0]] if idx else NA)
     ''', encodes=enc)
+    s.add('f_column_same_text_in_several_cells', 'x: int', "1 <= x <= 1048576", '''
+        return ([evfill(0, c, A1=x) for c in ('B7', 'D7', 'AB7')] == [2, 4, 28] and [evfill(1, c) for c in ('C3', 'F3')] == [3, 6]
+                and [evfill(0, c, A1=x) for c in ('D9', 'G9')] == [4 + x, 7 + x] and [evfill(0, c, A1=x) for c in ('C8', 'E8')] == ['C' + str(x), 'E' + str(x)])
+    ''', encodes=('ColumnControlConstructionTokenTranslator.translate', 'CellTranslator._set_cell_to_context'), requires='KFILL is not None')
     s.add('f_column', 'x: int', "True", '''
         return ev('F13', A1=x) == 3 and ev('F14', A1=x) == 6 and ev('F15', A1=x) == 28
     ''', encodes=('ColumnControlConstructionTokenTranslator.translate',))
